@@ -58,9 +58,126 @@ def err_class(e: BaseException) -> str:
     return "other"
 
 
+# ---------------------------------------------------------------------------
+# "lived-in" trees.  Every LIVED_IN-th tree that build() returns has the shape the spec describes, but it got there the way a
+# tree in an application does: it was read with every kind of query, then changed (a temporary node added and removed, child
+# lists re-ordered and ordered back, a node moved away and back, data changed and changed back) and read again in between.
+# A fresh tree cannot show a result that some read operation memoised and a mutation forgot to invalidate; this one can.
+LIVED_IN = 0          # 0 = never; n = every n-th build (set by harness/main.py)
+_builds = 0
+LIVED_STATS = {"lived_in": 0, "lived_in_gave_up": 0}
+
+
+def read_battery(tree):
+    """every family of read operation once (results are thrown away; exceptions are not this function's business)"""
+    from nutree.common import IterMethod
+
+    def quiet(f):
+        try:
+            return f()
+        except Exception:  # noqa
+            return None
+
+    typed = isinstance(tree, TypedTree)
+    nodes = quiet(lambda: list(tree)) or []
+    for m in IterMethod:
+        quiet(lambda: list(tree.iterator(m)))
+    quiet(lambda: tree.find_all(match=".*"))
+    quiet(lambda: tree.find_first(match=".*"))
+    quiet(lambda: tree.format())
+    quiet(lambda: tree.to_dict_list())
+    quiet(lambda: list(tree.to_dot()))
+    quiet(lambda: (tree.count, tree.count_unique, len(tree), tree.calc_height()))
+    quiet(lambda: tree.copy())
+    for n in nodes[:12]:
+        quiet(lambda: tree[n.data])
+        quiet(lambda: n.data in tree)
+        quiet(lambda: tree.find_all(n.data))
+        quiet(lambda: n.find_all(match=".*", add_self=True))
+        quiet(lambda: (n.get_index(), n.depth(), n.is_first_sibling(), n.is_last_sibling(), n.prev_sibling(), n.next_sibling(), n.get_siblings(),
+                       n.get_parent_list(), n.path, n.count_descendants(), n.calc_height(), n.get_top(), n.is_clone(), n.get_clones()))
+        quiet(lambda: list(n.iterator(add_self=True)))
+        quiet(lambda: n.format())
+        if typed:
+            quiet(lambda: (n.get_children(n.kind), n.first_child(n.kind), n.last_child(n.kind), n.has_children(n.kind), n.get_index(any_kind=True),
+                           n.get_siblings(any_kind=True), list(tree.iter_by_type(n.kind))))
+        else:
+            quiet(lambda: (n.first_child(), n.last_child(), n.has_children(), n.get_children()))
+
+
+def live_in(tree, pool):
+    """perturb-and-restore (see above); returns False if the tree could not be brought back to the shape it had"""
+    typed = isinstance(tree, TypedTree)
+
+    def shape():
+        return [(id(n), id(n.data), repr(n.data_id), getattr(n, "kind", None), id(n.parent), [id(c) for c in n.children]) for n in tree] + [
+            [id(c) for c in tree.children]]
+
+    want = shape()
+    try:
+        # (no read in the initial state: a result memoised at the FIRST read and never refreshed would be right again once the
+        # tree is back in this state — all reads happen in the perturbed states, the check is the first reader of the final one)
+        nodes = list(tree)
+        # 1. a temporary node, added and removed again
+        host = nodes[len(nodes) // 2] if nodes else tree
+        tmp = host.add("TMP-lived-in", before=True, **({"kind": "tmp-kind"} if typed else {}))
+        read_battery(tree)
+        tmp.remove()
+        # 2. every child list reversed, read, and put back in order
+        parents = [tree.system_root] + [n for n in nodes if n.children]
+        for p in parents:
+            order = {id(c): i for i, c in enumerate(p.children)}
+            p.sort_children(key=lambda c, o=order: -o[id(c)])
+        read_battery(tree)
+        for p in parents:
+            order = {id(c): i for i, c in enumerate(p.children)}
+            p.sort_children(key=lambda c, o=order: -o[id(c)])
+        # 3. a leaf moved to the top level and back to its place
+        leaves = [n for n in nodes if not n.children and n.parent is not None]
+        top_ids = {c.data_id for c in tree.children}
+        leaves = [n for n in leaves if n.data_id not in top_ids]      # (no collision with a top-level node)
+        if leaves and not typed:      # (TypedNode.move_to is not implemented)
+            n = leaves[0]
+            par, idx = n.parent, n.get_index(**({"any_kind": True} if typed else {}))
+            try:
+                n.move_to(tree, before=True)
+                read_battery(tree)
+            finally:
+                if n.parent is not par:
+                    n.move_to(par, before=idx)
+        # 4. a node's data changed and changed back (same data object, same id)
+        if nodes:
+            n = nodes[-1]
+            d, i = n.data, n.data_id
+            try:
+                n.set_data("TMP-data-lived-in", data_id="tmp-id-lived-in", with_clones=False)
+                read_battery(tree)
+            finally:
+                if n.data is not d or n.data_id != i:
+                    n.set_data(d, data_id=i, with_clones=False)
+    except Exception:  # noqa
+        return False
+    return shape() == want
+
+
 def build(spec, pool, *, typed=False, kinds=None, tree=None):
     """Build a real tree from spec [(label, [children])].  A label is a pool index, or a
-    tuple (pool index, kind) for typed trees, or a dict with keys a, k, did."""
+    tuple (pool index, kind) for typed trees, or a dict with keys a, k, did.  (Every LIVED_IN-th tree is a lived-in one.)"""
+    global _builds
+    given = tree
+    t = _build(spec, pool, typed=typed, kinds=kinds, tree=tree)
+    if LIVED_IN and given is None:
+        _builds += 1
+        if _builds % LIVED_IN == 0:
+            if live_in(t, pool):
+                LIVED_STATS["lived_in"] += 1
+            else:
+                LIVED_STATS["lived_in_gave_up"] += 1
+                t = _build(spec, pool, typed=typed, kinds=kinds, tree=None)
+    return t
+
+
+def _build(spec, pool, *, typed=False, kinds=None, tree=None):
     if tree is None:
         tree = TypedTree("t") if typed else Tree("t")
 
